@@ -94,7 +94,7 @@ class VmStackValue(TlbScheme):
         elif isinstance(value, VmTuple):
             builder.store_bytes(b'\x07')
             builder.store_uint(len(value), 16)
-            builder.store_cell(VmTuple.serialize(value))
+            builder.store_cell(VmTuple.serialize(VmTuple(value.list.copy())))  # serialize() consumes its argument
         return builder.end_cell()
 
     @classmethod
